@@ -495,8 +495,80 @@ func cmpF(a, b float64) int {
 	return 0
 }
 
+// conv converts a numeric operand of another numeric type into the target's domain (INTEGER and
+// FLOAT count seconds when they meet an RTIME). Only conversions that are exact under every
+// rounding rule are in range.
+func (e *Env) conv(val TVal, target TType) TVal {
+	if val.T == target {
+		return val
+	}
+	switch target {
+	case TI:
+		switch val.T {
+		case TF:
+			if val.F != math.Trunc(val.F) || math.Abs(val.F) > 1e15 {
+				e.oor("inexact FLOAT to INTEGER")
+			}
+			return TVal{T: TI, I: int64(val.F)}
+		case TT:
+			if val.Ms%1000 != 0 {
+				e.oor("inexact RTIME to INTEGER")
+			}
+			return TVal{T: TI, I: val.Ms / 1000}
+		}
+	case TF:
+		switch val.T {
+		case TI:
+			if abs64(val.I) > 1<<52 {
+				e.oor("inexact INTEGER to FLOAT")
+			}
+			return TVal{T: TF, F: float64(val.I)}
+		case TT:
+			return TVal{T: TF, F: float64(val.Ms) / 1000}
+		}
+	case TT:
+		switch val.T {
+		case TI:
+			if abs64(val.I) > 9e9 {
+				e.oor("RTIME range") // a duration of more than ~292 years overflows: out of range (C08)
+			}
+			return TVal{T: TT, Ms: val.I * 1000}
+		case TF:
+			ms := val.F * 1000
+			if ms != math.Trunc(ms) || math.Abs(ms) > 1e15 {
+				e.oor("inexact FLOAT to RTIME")
+			}
+			return TVal{T: TT, Ms: int64(ms)}
+		}
+	}
+	return val
+}
+
 // assign applies `target op= val`.
 func (e *Env) assign(cur TVal, op string, val TVal) TVal {
+	// an RTIME is scaled by a plain number
+	if cur.T == TT && (op == "*=" || op == "/=") && (val.T == TI || val.T == TF) {
+		f := val.F
+		if val.T == TI {
+			f = float64(val.I)
+		}
+		if f == 0 {
+			e.oor("division")
+			return cur
+		}
+		r := float64(cur.Ms) * f
+		if op == "/=" {
+			r = float64(cur.Ms) / f
+		}
+		if r != math.Trunc(r) || math.Abs(r) > 9e12 {
+			e.oor("inexact RTIME scaling")
+			return cur
+		}
+		return TVal{T: TT, Ms: int64(r)}
+	}
+	if cur.T != val.T && (cur.T == TI || cur.T == TF || cur.T == TT) && (val.T == TI || val.T == TF || val.T == TT) {
+		val = e.conv(val, cur.T)
+	}
 	switch cur.T {
 	case TI:
 		a, b := cur.I, val.I
@@ -599,12 +671,17 @@ func (e *Env) assign(cur TVal, op string, val TVal) TVal {
 		}
 	case TT:
 		switch op {
-		case "=":
-			return TVal{T: TT, Ms: val.Ms}
-		case "+=":
-			return TVal{T: TT, Ms: cur.Ms + val.Ms}
-		case "-=":
-			return TVal{T: TT, Ms: cur.Ms - val.Ms}
+		case "=", "+=", "-=":
+			ms := val.Ms
+			if op == "+=" {
+				ms = cur.Ms + val.Ms
+			} else if op == "-=" {
+				ms = cur.Ms - val.Ms
+			}
+			if abs64(ms) > 9e12 {
+				e.oor("RTIME range")
+			}
+			return TVal{T: TT, Ms: ms}
 		}
 	}
 	e.oor("unsupported op " + op)
@@ -1059,6 +1136,22 @@ func (g *TG) setStmt() TStmt {
 		}
 	default:
 		val = g.operand(v.T)
+	}
+	// a variable of ANOTHER numeric type as operand (conversions that are exact under every rounding rule)
+	if r.Intn(5) == 0 {
+		mixed := map[TType]map[TType][]string{
+			TF: {TI: {"=", "+=", "-=", "*="}, TT: {"=", "+=", "-="}},
+			TT: {TI: {"=", "+=", "-=", "*="}, TF: {"=", "+=", "-=", "*=", "/="}},
+			TI: {TF: {"=", "+=", "-=", "*="}, TT: {"=", "+=", "-="}},
+		}
+		if m, ok := mixed[v.T]; ok {
+			ot := []TType{TI, TF, TT}[r.Intn(3)]
+			if ops, ok := m[ot]; ok {
+				if ov, ok := g.varOf(ot); ok {
+					return TSet{Target: v.Name, T: v.T, Op: ops[r.Intn(len(ops))], Val: ov}
+				}
+			}
+		}
 	}
 	// unary minus on a variable (it must not change the variable it is applied to)
 	if v.T != TS && v.T != TB && (op == "=" || op == "+=" || op == "-=") && r.Intn(6) == 0 {
